@@ -92,6 +92,8 @@ class LinearConstraints:
                 )
             if isinstance(spec, list):
                 spec = ",".join(spec)
+            if isinstance(spec, dict) and not spec:
+                spec = ""  # no constraints, as for the empty string or list
             if isinstance(spec, str):
                 matrix, values = LinearConstraintParser(
                     variable_names=variable_names
